@@ -215,7 +215,7 @@ func init() {
 // `TotalTokensWithAsset(validator, asset) == 0` on the untruncated value.  Any wider test (truncated to whole tokens,
 // below a threshold) removes shares that still back value while the asset total keeps counting them.
 func init() {
-	register(&Rule{ID: "C03.dustcond", Props: []string{"C03", "C04", "C10"}, Floor: 1,
+	register(&Rule{ID: "C03.dustcond", Props: []string{"C03", "C04", "C10", "C05"}, Floor: 1,
 		Doc: "a validator's remaining shares are stripped as dust only when their token value is exactly zero",
 		Run: func(e *Engine, r *RuleRun) {
 			fn := r.Need("keeper.Keeper.ClearDustDelegation")
